@@ -191,8 +191,12 @@ func (ex *Exec) libSummary(fr *Frame, st *State, fn *ssa.Function, args []Val, x
 				}
 				return one(&FloatV{Known: true, F: r})
 			}
-			if f.Expr != "" {
-				return one(&FloatV{Expr: strings.TrimPrefix(name, "math.") + "(" + f.Expr + ")"})
+			if f.Expr != "" || f.Mono != nil {
+				r := &FloatV{Rounded: strings.TrimPrefix(name, "math."), Mono: f.Mono}
+				if f.Expr != "" {
+					r.Expr = strings.TrimPrefix(name, "math.") + "(" + f.Expr + ")"
+				}
+				return one(r)
 			}
 		}
 		return one(&FloatV{})
@@ -305,6 +309,20 @@ func (ex *Exec) libSummary(fr *Frame, st *State, fn *ssa.Function, args []Val, x
 		n := st.freshInt("copied", 64, true)
 		st.refineSym(n.T.Syms[0], 0, 1<<40)
 		return one(&TupleV{Vs: []Val{n, &IfaceV{Unk: true}}})
+	}
+	switch name {
+	case "(time.Duration).Nanoseconds":
+		if iv, ok := args[0].(*IntV); ok {
+			return one(iv)
+		}
+	case "(time.Duration).Microseconds":
+		if iv, ok := args[0].(*IntV); ok {
+			return one(st.Arith(token.QUO, iv, mkConst(1000, 64, true), pos))
+		}
+	case "(time.Duration).Milliseconds":
+		if iv, ok := args[0].(*IntV); ok {
+			return one(st.Arith(token.QUO, iv, mkConst(1000000, 64, true), pos))
+		}
 	}
 	if strings.HasPrefix(name, "(time.Duration).") || strings.HasPrefix(name, "(time.Time).") {
 		return one(ex.retTop(st, resT, fn.Name()))
